@@ -906,7 +906,8 @@ impl<'a> RefWriter<'a> {
                     }
                     if ri == 0 {
                         listed.insert(0, None);
-                        let cover_gaps = !self.ch.maybe("xref-subsections", 1, 2);
+                        // (a document with a number in the millions is not padded with millions of free entries)
+                        let cover_gaps = size < 50_000 && !self.ch.maybe("xref-subsections", 1, 2);
                         if cover_gaps {
                             for n in 0..size {
                                 listed.entry(n).or_insert(None);
@@ -985,7 +986,7 @@ impl<'a> RefWriter<'a> {
                         listed.insert(*n, Some(e.clone()));
                     }
                     let explicit_index;
-                    if ri == 0 && !self.ch.maybe("xrefstm-index-sparse", 1, 2) {
+                    if ri == 0 && size < 50_000 && !self.ch.maybe("xrefstm-index-sparse", 1, 2) {
                         for n in 0..size {
                             listed.entry(n).or_insert(None);
                         }
